@@ -39,7 +39,8 @@ def scenario(tier):
                     cur["R/d/b.txt"] = orig["R/d/b.txt"]
                     b.alter("R/d/b.txt", orig["R/d/b.txt"])
             # the machine's time zone may differ from generation to generation (material travels)
-            b.use_fixed_offset(3600 * sym.choose("zone_hours_gen%d" % g, [0, 2, -7]))
+            if g < 2:
+                b.use_fixed_offset(3600 * sym.choose("zone_hours_gen%d" % g, [0, 2, -7] if g == 1 else [0, 2]))
             names_before = b.manifest_names("R")
             if mode == "folder":
                 r = b.run("create", root="R", h=fmts)
